@@ -461,6 +461,23 @@ class DegEval:
                 # universal function call syntax of a method: first argument is the receiver
                 as_method = {"k": "MethodCall", "name": nm, "recv": n["args"][0], "args": n["args"][1:], "def": f.get("def"), "ln": n.get("ln"), "t": n.get("t")}
                 return self.deg(as_method)
+            # a helper function of the same crate: its value has the degree of its body with the arguments' degrees
+            di = f.get("inst", f.get("def")) if f.get("k") == "Path" else None
+            g = next((x for x in self.c.fns if x["def"] == di and x is not self.fn), None) if di is not None else None
+            if g is not None and getattr(self, "depth", 0) < 3:
+                env2 = {}
+                ps_ = [p_ for p_ in g["params"]]
+                for p_, a_ in zip(ps_, n["args"]):
+                    try:
+                        da = self.deg(a_)
+                    except DegError:
+                        da = None
+                    for b in pat_bindings(p_):
+                        if da is not None:
+                            env2[b["local"]] = da
+                sub = DegEval(g, self.impl_rdeg, env2)
+                sub.depth = getattr(self, "depth", 0) + 1
+                return sub.deg(g["body"])
             raise DegError("unclassified", "call of `%s` is not understood by the degree analysis" % (nm or self.r.e(f)[:40]), n.get("ln"))
         if k_ == "MethodCall":
             nm = n["name"]
